@@ -206,6 +206,11 @@ func (self *Pipeline) format(printer *printer) {
 
 func (self *CallStm) format(printer *printer, prefix string) {
 	printer.printComments(&self.Node, prefix)
+	if len(self.Bindings.List) == 0 {
+		// An empty binding list is not formatted, and has no first
+		// binding to inherit its comments.  Keep them with the call.
+		printer.printComments(&self.Bindings.Node, prefix)
+	}
 	printer.mustWriteString(prefix)
 	if self.CallMode() != ModeSingleCall {
 		printer.mustWriteString("map ")
